@@ -38,7 +38,7 @@ def master_svg(k, variant, rng_vals):
 
 
 def one(job):
-    seed, nested = (job + (False,))[:2]
+    seed, nested, variant = (job + (False, 0))[:3]
     import random
     from fontTools import ttLib
     from fontTools.varLib import instancer
@@ -60,7 +60,12 @@ def one(job):
             locs = [{"wght": 400, "wdth": 100}, {"wght": w_hi, "wdth": 100}, {"wght": 400, "wdth": rng.choice([87.5, 112.5, 100.75]) if frac else 150}]
         else:
             locs = [{"wght": 400}, {"wght": w_hi}, {"wght": 312.5 if frac else 100}][:n_masters]
-        names = ["regular", "bold", "other"][:n_masters]
+        # master names: one may be a suffix of another declared before it ("semibold" / "bold", "extralight" / "light")
+        names = list([("regular", "semibold", "bold"), ("regular", "bold", "other"), ("extralight", "light", "regular"), ("regular", "bold", "old")][variant % 4])
+        if len(names) > 2 and variant % 4 in (0, 2):
+            n_masters = 3     # the suffix pair needs all three masters
+        names = names[:n_masters]
+        locs = locs[:n_masters] if len(locs) >= n_masters else locs + [{"wght": 250.5 if frac else 200}]
         for m, nm in enumerate(names):
             # three glyphs; the first and the LAST have identical geometry (hence identical clip boxes) in every non-default master and
             # different geometry in the default one: non-adjacent glyphs sharing a box in some masters only
@@ -206,7 +211,7 @@ def compare(ctx, res, r):
 
 
 def suite(ctx, res, n):
-    jobs = [(ctx.rng.getrandbits(32) * 2 + (i % 2), i % 4 in (0, 3)) for i in range(n)]   # odd seeds: non-integer master positions
+    jobs = [(ctx.rng.getrandbits(32) * 2 + (i % 2), i % 4 in (0, 3), i) for i in range(n)]   # odd seeds: non-integer master positions
     with ThreadPoolExecutor(max_workers=6) as ex:
         results = list(ex.map(one, jobs))
     for r in results:
